@@ -26,7 +26,9 @@ def _pre(pairs, **kw): return [dict(kw, PRE0=a, PRE1=b) for a, b in pairs]
 QP = [(0, 0), (1, 3), (3, 1), (2, 5), (5, 4), (4, 6), (6, 2)]
 ALLP = [(a, b) for a in range(7) for b in range(7)]
 HEAPF = ['--memory-leak-check', '--slice-formula']
-OPS2 = [(a, b) for a in range(7) for b in range(7)]
+# pairs that contain the sized constructor (op 6) lie wholly inside the two pending findings on utl::vector(N) (uninitialised cells / leaked malloc(0) block):
+# they are enumerated again as soon as NMV_NO_PENDING=1 is set (i.e. once the findings are fixed)
+OPS2 = [(a, b) for a in range(7) for b in range(7) if not _PENDING_ON or 6 not in (a, b)]
 def _ops(pairs, **kw): return [dict(kw, OP0=a, OP1=b) for a, b in pairs]
 _h('hist_vector', 'h_hist', 'utl::vector<int> (heap, malloc/free; CBMC heap model with --memory-leak-check); ' + HB,
    quick=_pre([(0, 0)], KIND=0, K=1, OUTCAP=8), thorough=_pre(ALLP, KIND=0, K=1, OUTCAP=8) + [dict(KIND=0, K=2, OUTCAP=9, PRE0=0, PRE1=0, _timeout=1800, _mem_gb=14)],
@@ -60,6 +62,9 @@ PENDING_FINDINGS = [
  dict(id='F-C19-vector-sized-ctor-uninit', harness='ctor', exclude_define='KF_C19_VECTOR_SIZED_CTOR_UNINIT', witness_config={},
       witness_inputs=['0x1'],
       what='utl::vector<int>(N) leaves its N elements uninitialised (std::vector(N) value-initialises)'),
+ dict(id='F-C19-vector-zero-leak', harness='ctor', exclude_define='KF_C19_VECTOR_ZERO_LEAK', witness_config={},
+      witness_inputs=['0x0', '0x0', '0x0', '0x0'],
+      what='utl::vector(0): the malloc(0) block is never freed (destructor skips buffer_size_ == 0)'),
  dict(id='F-C19-static-sized-ctor-over-capacity', harness='ctor_static', exclude_define='KF_C19_STATIC_SIZED_CTOR_OVER_CAPACITY', witness_config={},
       witness_inputs=['0x5'],
       what='utl::static_vector<int,4>(N) with N > 4 reports size() N > capacity'),
@@ -72,6 +77,15 @@ PENDING_FINDINGS = [
  dict(id='F-C19-vector-sized-ctor-uninit', harness='hist_vector', exclude_define='KF_C19_VECTOR_SIZED_CTOR_UNINIT', witness_config={'KIND': 0, 'K': 1, 'OUTCAP': 8, 'PRE0': 0, 'PRE1': 0},
       witness_inputs=['0x0', '0x0', '0x0', '0x0', '0x0', '0x0', '0x0', '0x0', '0x0', '0x0', '0x6', '0x0', '0x1', '0xffffffffa1524111'],
       what='utl::vector<int>(N) leaves its N elements uninitialised (std::vector(N) value-initialises)'),
+ dict(id='F-C19-vector-zero-leak', harness='hist_vector', exclude_define='KF_C19_VECTOR_ZERO_LEAK', witness_config={'KIND': 0, 'K': 1, 'OUTCAP': 8, 'PRE0': 0, 'PRE1': 0},
+      witness_inputs=['0x0', '0x0', '0x0', '0x0', '0x0', '0x0', '0x0', '0x0', '0x0', '0x0', '0x6', '0x0', '0x0', '0x0'],
+      what='utl::vector(0): the malloc(0) block is never freed (destructor skips buffer_size_ == 0)'),
+ dict(id='F-C19-vector-sized-ctor-uninit', harness='hist_vector_ops2', exclude_define='KF_C19_VECTOR_SIZED_CTOR_UNINIT', witness_config={'KIND': 0, 'K': 2, 'OUTCAP': 9, 'OP0': 6, 'OP1': 0},
+      witness_inputs=['0x0', '0x0', '0x0', '0x0', '0x0', '0x0', '0x0', '0x0', '0x0', '0x0', '0x6', '0x0', '0x1', '0x0', '0x0', '0x0', '0x6', '0xffffffff00000080'],
+      what='utl::vector<int>(N) leaves its N elements uninitialised (std::vector(N) value-initialises)'),
+ dict(id='F-C19-vector-zero-leak', harness='hist_vector_ops2', exclude_define='KF_C19_VECTOR_ZERO_LEAK', witness_config={'KIND': 0, 'K': 2, 'OUTCAP': 9, 'OP0': 6, 'OP1': 0},
+      witness_inputs=['0x0', '0x0', '0x0', '0x0', '0x0', '0x0', '0x0', '0x0', '0x0', '0x0', '0x6', '0x1', '0x0', '0x0', '0x0', '0x1', '0x0', '0x0'],
+      what='utl::vector(0): the malloc(0) block is never freed (destructor skips buffer_size_ == 0)'),
  dict(id='F-C19-maybe-nontrivial', harness='maybe_heap', exclude_define='KF_C19_MAYBE_NONTRIVIAL', witness_config={'K': 1},
       witness_inputs=['0x0', '0x0', '0x0'],
       what='utl::maybe with a heap-owning value: assignment into an empty maybe assigns to an unconstructed T, nothing destroys the value (leaks / invalid frees)'),
